@@ -6,6 +6,7 @@ mod delta;
 mod hubctl;
 mod hubsched;
 mod hubwire;
+mod hubsync;
 
 fn main() {
     let mut it = std::env::args().skip(1);
@@ -20,6 +21,7 @@ fn main() {
         "c03" => hubsched::main(args),
         "c12" => hubwire::main_c12(args),
         "c11" => hubwire::main_c11(args),
+        "c13" => hubsync::main(args),
         _ => {
             eprintln!("unknown command {cmd}");
             2
